@@ -131,8 +131,34 @@ def scenarios(tier):
     return sc
 
 
+def write_during_emission():
+    """Function level, deterministic: something is written to the proxy WHILE flush() is emitting (another thread of the task,
+    or a handler that prints).  It must come out with the next flush -- not be dropped, not be emitted twice."""
+    from labtech.utils import LoggerFileProxy
+    out = []
+    box = {}
+
+    def emit(msg):
+        out.append(msg)
+        if len(out) == 1:
+            box['p'].write('LATE-WRITE-X')
+    p = LoggerFileProxy(emit, '')
+    box['p'] = p
+    p.write('FIRST-X')
+    p.flush()
+    p.flush()
+    text = '\n'.join(out)
+    if text.count('FIRST-X') != 1 or text.count('LATE-WRITE-X') != 1:
+        return (f'LoggerFileProxy: a write that arrives while flush() is emitting was delivered {text.count("LATE-WRITE-X")} times '
+                f'(FIRST-X {text.count("FIRST-X")} times) after two flushes; expected once each')
+    return None
+
+
 def explore(tier):
-    n = 0
+    n = 1
+    why = write_during_emission()
+    if why:
+        return dict(reproduced=True, level='function', summary=why), n
     for backend in ('fork', 'spawn'):
         for label, tasks in scenarios(tier):
             if backend == 'spawn' and tier == 'quick' and label in ('two-chatty-finish-together', 'failing-task-printed-first', 'last-finisher-slow'):
